@@ -447,9 +447,10 @@ def classify(v):
 
 
 MANIFEST_TEXT = (
-    "Held (up to the recorded finding) on every execution observed: marker "
-    "words inserted at word boundaries of well-formed and damaged "
-    "descriptions under twelve parse modes must reappear in a description "
+    "Held (up to the two recorded findings) on every execution observed: "
+    "marker words and tokens inserted at word boundaries of well-formed and "
+    "damaged descriptions (P.M. designations included) under sixteen parse "
+    "modes must reappear in a description "
     "or an unused_desc flag; in every parse the recorded marker walk, the "
     "chunker and every preprocessing substitution pass are checked for "
     "conservation (text in = text staged + text flagged). Exploration.")
